@@ -295,8 +295,31 @@ def execute(ctx, spec):
         pass
 
 
+def gen_single_column(ctx, case, rng):
+    """a (non-Hermitian) one-body spin-orbital operator sum_p c_p a†_p a_q with one annihilated mode q — a one-body
+    matrix with a single non-zero column, for which the library takes a dedicated fast path — on a spin-broken
+    wavefunction holding every Sz sector of N electrons, N up to and beyond half filling"""
+    norb = rng.choice([2, 3, 3])
+    nele = rng.choice([n for n in range(1, 2 * norb) if n >= norb - 1])
+    w = ctx.fqe.get_number_conserving_wavefunction(nele, norb)
+    U.random_fill(w, rng, zero_p=0.0)
+    q = rng.randrange(2 * norb)
+    rows = rng.sample(range(2 * norb), rng.randint(1, 2 * norb))
+    cplx = rng.random() < 0.5
+    opterms = [((U.gint(rng, zero_p=0.0, complex_p=0.6 if cplx else 0.0) or 1), [(p_, 1), (q, 0)]) for p_ in rows]
+    spec = {"ham": "gso", "wfn": "spinbroken", "norb": norb, "complex": cplx, "e0": enc_c(rng.choice([0, 0, 2])), "case": case,
+            "params": [[n, s_, norb] for n, s_ in sorted(w.sectors())], "broken": "spin",
+            "entries": [[a, b, enc_c(c)] for a, b, c in U.wfn_entries(w)], "single_column": q,
+            "opterms": [[enc_c(c), [list(f) for f in t]] for c, t in opterms]}
+    spec["tensors"] = [enc_arr(numpy.ascontiguousarray(t)) for t in canonical_tensors(opterms, norb, 1)]
+    return spec
+
+
 def run(ctx):
     rng = ctx.rng
+    for case in range(40 if ctx.tier == "quick" else 600):
+        execute(ctx, gen_single_column(ctx, 200000 + case, rng))
+        ctx.count("family:single-column")
     ncases = 260 if ctx.tier == "quick" else 12000
     for case in range(ncases):
         if ctx.out_of_time():
